@@ -702,6 +702,9 @@ mod huffman {
                                 panic!("invalid decoding map");
                             }
                             Decode::Further(_) => {
+                                if self.pending_bits == 0 {
+                                    return None;
+                                }
                                 panic!("malformed data: decode incomplete (Further)");
                             }
                             Decode::Symbol(s, bits) => {
